@@ -43,6 +43,7 @@ type Prog struct {
 	closureFn     map[int]*ssa.Function
 	constTables   map[*ssa.Global]map[int64]*Term
 	mutated       map[*ssa.Global]bool
+	errVars       map[*ssa.Global]bool
 	strConsts     map[string]int64
 	strList       []string
 	srcCache      map[string][]byte
@@ -71,7 +72,7 @@ func loadProg(repo, verif string, pkgPatterns []string) (*Prog, error) {
 	p := &Prog{prog: prog, pkgs: pkgs, spkgs: map[string]*ssa.Package{}, Contracts: map[string]*Contract{},
 		Macros: map[string]*Macro{}, SpecFns: map[string]*SpecFn{}, Recs: map[string]bool{}, SortAlias: map[string]*Sort{},
 		Specs: map[string]*SpecFile{}, OpaqueDecl: map[string]string{}, GhostDecls: map[string]*Sort{}, SpecFileOf: map[string]string{}, GhostMono: map[string]bool{}, globals: map[*ssa.Global]int64{}, funcs: map[*ssa.Function]int64{},
-		closureFn: map[int]*ssa.Function{}, constTables: map[*ssa.Global]map[int64]*Term{}, mutated: map[*ssa.Global]bool{},
+		closureFn: map[int]*ssa.Function{}, constTables: map[*ssa.Global]map[int64]*Term{}, mutated: map[*ssa.Global]bool{}, errVars: map[*ssa.Global]bool{},
 		strConsts: map[string]int64{}, srcCache: map[string][]byte{}, tagTypes: map[int64]types.Type{},
 		repo: repo, verif: verif, fnByName: map[string]*ssa.Function{}, extByName: map[string]*ssa.Function{}}
 	for _, sp := range prog.AllPackages() {
@@ -137,6 +138,17 @@ func (p *Prog) scanGlobals() {
 			for _, ins := range b.Instrs {
 				if isInit {
 					if s, ok := ins.(*ssa.Store); ok {
+						// var ErrX = errors.New(...) and the like: an error variable initialised to a non-nil value
+						if g, ok := s.Addr.(*ssa.Global); ok && isErrorIface(derefType(g.Type())) {
+							switch v := s.Val.(type) {
+							case *ssa.MakeInterface:
+								p.errVars[g] = true
+							case *ssa.Call:
+								if f := v.Call.StaticCallee(); f != nil && (f.String() == "errors.New" || f.String() == "fmt.Errorf") {
+									p.errVars[g] = true
+								}
+							}
+						}
 						if ia, ok := s.Addr.(*ssa.IndexAddr); ok {
 							if g, ok := ia.X.(*ssa.Global); ok {
 								if ic, ok := ia.Index.(*ssa.Const); ok {
@@ -179,6 +191,27 @@ func (p *Prog) scanGlobals() {
 			}
 		}
 	}
+}
+
+func isErrorIface(t types.Type) bool {
+	n, ok := t.(*types.Named)
+	return ok && n.Obj().Pkg() == nil && n.Obj().Name() == "error"
+}
+
+// errVarOf: the object denotes a package-level error variable that init sets to a non-nil value and no function of the
+// module ever assigns (assumption reported in the evidence: other modules do not assign it either).
+func (p *Prog) errVarOf(o *Term) *ssa.Global {
+	if o.Op != "int" {
+		return nil
+	}
+	id := -o.V.Int64()
+	if id >= 1 && id <= int64(len(p.globalList)) {
+		g := p.globalList[id-1]
+		if p.errVars[g] && !p.mutated[g] {
+			return g
+		}
+	}
+	return nil
 }
 
 func addrOnlyLoaded(v ssa.Value) bool {
@@ -371,7 +404,8 @@ func (p *Prog) implementsTerm(tag *Term, it *types.Interface) *Term {
 
 func (p *Prog) pureExtern(name string) bool {
 	for _, pre := range []string{"errors.New", "fmt.Errorf", "fmt.Sprintf", "strconv.", "strings.", "bytes.Equal", "bytes.Compare",
-		"unicode", "time.Now", "math/bits.", "fmt.Sprint", "encoding/hex.EncodeToString", "crypto/subtle."} {
+		"unicode", "time.Now", "math/bits.", "fmt.Sprint", "encoding/hex.EncodeToString", "crypto/subtle.",
+		"(encoding/asn1.ObjectIdentifier).", "(time.Time).", "(net.IP).Equal", "net.ParseIP", "(crypto/x509/pkix.Name).ToRDNSequence"} {
 		if strings.HasPrefix(name, pre) {
 			return true
 		}
